@@ -9,9 +9,9 @@ CONSTANTS
   Ticks <- TicksExh
   Horizon = 8
   MaxEx = 1000000
-  ProbeNs <- ProbesExh
+  ProbeNs <- NoProbes
   ProbeUids <- UidsExh
-  MaxOld = 0
+  MaxOld = 1
 VIEW viewU
 INVARIANTS SentLeavesPool FieldCount PlaceholderType ReqFits ReqFitsConst NoShrink PoolCap StaysFull RespFits RespCount ProbeAnswered FreshCookiesOpen
 PROPERTIES SingleUse Answered Fresh
